@@ -12,7 +12,8 @@ RULE = ('all ordered pairs of distinct wavelets from a pool of 8 (equal-length-d
         'x 5 modes x size set (H!=W and H==W, odd and even) x J<=3; DWTForward/DWTInverse built from the 4-tuple; complete '
         'impulse basis (analysis) and complete coefficient basis (synthesis); oracles: pywt.wavedec2/waverec2 with one wavelet '
         'per axis and the functional lowlevel.afb2d/sfb2d given the same four filters; 2-tuple and name forms compared with '
-        'the same-wavelet reference; distinct_nontrivial = distinct non-zero extracted operators')
+        'the same-wavelet reference; the functional API is given the four filters as arrays, as prepared tensors and as the module\'s own buffers; '
+        'None levels with per-axis filters equal explicit zeros on the image extent; distinct_nontrivial = distinct non-zero extracted operators')
 ASSUMPTIONS = ['C07 (linearity)', 'PyWavelets with a per-axis wavelet tuple is the reference model']
 POOL = ['haar', 'db2', 'db3', 'coif1', 'bior2.2', 'bior1.3', 'db4', 'sym4']
 CHUNK = 2
@@ -41,7 +42,8 @@ def plan(tier):
 
 def required_regimes(tier):
     return {'pair:equal_len', 'pair:different_len', 'size:h!=w', 'size:h==w', 'size:odd', 'form:4tuple', 'form:2tuple',
-            'form:name', 'analysis', 'synthesis', 'functional_afb2d', 'functional_sfb2d'}
+            'form:name', 'analysis', 'synthesis', 'functional_afb2d', 'functional_sfb2d', 'functional:arrays',
+            'functional:prepared_tensors', 'functional:module_buffers', 'none_levels'}
 
 
 def _waves(item):
@@ -108,19 +110,28 @@ def run(item):
             if d is not None:
                 res.violation('analysis_axes_vs_pywt', cfg, d, tags)
             res.op(Ai)
-            # ---- functional afb2d (single level, same four filters)
+            # ---- functional afb2d (single level, same four filters): array form, prepared-tensor form, module buffers
             if J == 1 and item['form'] == '4tuple':
-                y = lowlevel.afb2d(torch.as_tensor(X), fa, mode=mode).numpy()
-                y = y.reshape(y.shape[0], 1, 4, y.shape[-2], y.shape[-1])
-                Af, sf = flat([y[:, :, 0], y[:, :, 1], y[:, :, 2], y[:, :, 3]])
-                res.regime('functional_afb2d')
-                res['impl_calls'] += 1
-                if sf != si:
-                    res.violation('module_vs_functional_afb2d', cfg, {'kind': 'band_shapes', 'observed': si, 'expected': sf}, tags)
-                else:
-                    d = cmp_mats(Ai, Af)
-                    if d is not None:
-                        res.violation('module_vs_functional_afb2d', cfg, d, tags)
+                fmod = DWTForward(J=1, wave=fa, mode=mode)
+                forms = {'arrays': fa, 'prepared_tensors': lowlevel.prep_filt_afb2d(*fa),
+                         'module_buffers': (fmod.h0_col, fmod.h1_col, fmod.h0_row, fmod.h1_row)}
+                for fname, ff in forms.items():
+                    fcfg = dict(cfg, functional_filter_form=fname)
+                    try:
+                        y = lowlevel.afb2d(torch.as_tensor(X), ff, mode=mode).numpy()
+                    except Exception as e:
+                        res.violation('module_vs_functional_afb2d', fcfg, {'kind': 'raise', 'exc': repr(e)[:200]}, tags)
+                        continue
+                    y = y.reshape(y.shape[0], 1, 4, y.shape[-2], y.shape[-1])
+                    Af, sf = flat([y[:, :, 0], y[:, :, 1], y[:, :, 2], y[:, :, 3]])
+                    res.regime('functional_afb2d', 'functional:' + fname)
+                    res['impl_calls'] += 1
+                    if sf != sr:
+                        res.violation('module_vs_functional_afb2d', fcfg, {'kind': 'band_shapes', 'observed': sf, 'expected': sr}, tags)
+                    else:
+                        d = cmp_mats(Af, Ar)
+                        if d is not None:
+                            res.violation('module_vs_functional_afb2d', fcfg, d, tags)
             # ---- synthesis on the complete coefficient basis of this pyramid shape
             lsh = tuple(yl.shape[2:])
             hsh = [tuple(t.shape[3:]) for t in yh]
@@ -157,13 +168,47 @@ def run(item):
             res.op(out.reshape(P, -1))
             if J == 1 and item['form'] == '4tuple':
                 t = torch.as_tensor(bh[0])
-                y = lowlevel.sfb2d(torch.as_tensor(bl), t[:, :, 0], t[:, :, 1], t[:, :, 2], fs, mode=mode).numpy()[:, 0]
-                res.regime('functional_sfb2d')
-                res['impl_calls'] += 1
-                d = cmp_mats(out.reshape(P, -1).T, y.reshape(P, -1).T) if y.shape == out.shape else \
-                    {'kind': 'shape', 'observed': list(out.shape[1:]), 'expected': list(y.shape[1:])}
-                if d is not None:
-                    res.violation('module_vs_functional_sfb2d', cfg, d, tags)
+                imod = DWTInverse(wave=fs, mode=mode)
+                forms = {'arrays': fs, 'prepared_tensors': lowlevel.prep_filt_sfb2d(*fs),
+                         'module_buffers': (imod.g0_col, imod.g1_col, imod.g0_row, imod.g1_row)}
+                for fname, ff in forms.items():
+                    fcfg = dict(cfg, functional_filter_form=fname)
+                    try:
+                        y = lowlevel.sfb2d(torch.as_tensor(bl), t[:, :, 0], t[:, :, 1], t[:, :, 2], ff, mode=mode).numpy()[:, 0]
+                    except Exception as e:
+                        res.violation('module_vs_functional_sfb2d', fcfg, {'kind': 'raise', 'exc': repr(e)[:200]}, tags)
+                        continue
+                    res.regime('functional_sfb2d', 'functional:' + fname)
+                    res['impl_calls'] += 1
+                    d = cmp_mats(y.reshape(P, -1).T, rref.reshape(P, -1).T) if y.shape == rref.shape else \
+                        {'kind': 'shape', 'observed': list(y.shape[1:]), 'expected': list(rref.shape[1:])}
+                    if d is not None:
+                        res.violation('module_vs_functional_sfb2d', fcfg, d, tags)
+            # ---- None levels with per-axis filters: same as explicit zeros on the image extent (J<=3, all non-empty subsets)
+            if item['form'] == '4tuple' and P <= 400 and mode != 'periodization':
+                imod = DWTInverse(wave=fs, mode=mode)
+                tl = torch.as_tensor(bl)
+                th = [torch.as_tensor(t_) for t_ in bh]
+                for r_ in range(1, J + 1):
+                    for sub in itertools.combinations(range(J), r_):
+                        ncfg = dict(cfg, none_levels=list(sub))
+                        zh = [torch.zeros_like(t_) if j in sub else t_ for j, t_ in enumerate(th)]
+                        nh = [None if j in sub else t_ for j, t_ in enumerate(th)]
+                        try:
+                            e_ = imod((tl, zh)).numpy()
+                            g_ = imod((tl, nh)).numpy()
+                        except Exception as e:
+                            res.violation('none_level_per_axis_filters', ncfg, {'kind': 'raise', 'exc': repr(e)[:200]}, tags)
+                            continue
+                        res['impl_calls'] += 2
+                        res['evals'] += P
+                        res.regime('none_levels')
+                        if g_.shape[-2] < h or g_.shape[-1] < w:
+                            res.violation('none_level_per_axis_filters', ncfg, {'kind': 'extent', 'observed': list(g_.shape[2:])}, tags)
+                            continue
+                        d = cmp_mats(g_[:, 0, :h, :w].reshape(P, -1), e_[:, 0, :h, :w].reshape(P, -1))
+                        if d is not None:
+                            res.violation('none_level_per_axis_filters', ncfg, d, tags)
             if (h, w, J) == (5, 8, 2) and item['form'] == '4tuple':
                 res.sample({'config': cfg, 'impulses': h * w, 'pyramid_coefficients': P,
                             'lowpass_shape': list(lsh), 'highpass_shapes': [list(s) for s in hsh]})
